@@ -670,3 +670,71 @@ func isCallValue(v ssa.Value) bool {
 	_, ok := v.(*ssa.Call)
 	return ok
 }
+
+// checkWriteRecordCount (C05.w): the framing helper returns, on success, exactly the sum of the byte counts its
+// sink writes returned (MetadataIndex.Length is that number).
+func checkWriteRecordCount(p *Program, r *Result) {
+	r.rule("C05.w", "writeRecord returns the number of bytes it wrote", 1)
+	fn := p.lookupFunc(pkgMcap, "Writer.writeRecord")
+	if fn == nil {
+		r.undecided("C05.w", "mcap.Writer.writeRecord", "anchor", "", "not found")
+		return
+	}
+	counts := map[ssa.Value]bool{}
+	for _, ci := range callsIn(fn, func(ci ssa.CallInstruction) bool { return ci.Common().IsInvoke() && ci.Common().Method.Name() == "Write" }) {
+		if call, ok := ci.(*ssa.Call); ok {
+			for _, ref := range *call.Referrers() {
+				if ex, ok := ref.(*ssa.Extract); ok && ex.Index == 0 {
+					counts[ex] = true
+				}
+			}
+		}
+	}
+	var onlyCounts func(v ssa.Value, depth int) bool
+	onlyCounts = func(v ssa.Value, depth int) bool {
+		if depth > 10 {
+			return false
+		}
+		if counts[v] {
+			return true
+		}
+		switch x := v.(type) {
+		case *ssa.Const:
+			return x.Value != nil && x.Value.String() == "0"
+		case *ssa.BinOp:
+			return x.Op == token.ADD && onlyCounts(x.X, depth+1) && onlyCounts(x.Y, depth+1)
+		case *ssa.Phi:
+			for _, e := range x.Edges {
+				if !onlyCounts(e, depth+1) {
+					return false
+				}
+			}
+			return true
+		}
+		return false
+	}
+	bad := ""
+	n := 0
+	for _, in := range instrsOf(fn) {
+		ret, ok := in.(*ssa.Return)
+		if !ok || len(ret.Results) != 2 {
+			continue
+		}
+		if !isNilConst(ret.Results[1]) && (!mayBeNilError(ret.Results[1]) || errKnownNonNil(ret, ret.Results[1])) {
+			continue // error path
+		}
+		n++
+		if !onlyCounts(ret.Results[0], 0) {
+			bad = p.pos(ret.Pos())
+		}
+	}
+	switch {
+	case n == 0:
+		r.undecided("C05.w", funcName(fn), "returned byte count", p.pos(fn.Pos()), "no successful return found")
+	case bad != "":
+		r.violated("C05.w", funcName(fn), "returned byte count", bad,
+			"on a successful return the count is not the sum of the byte counts returned by the sink writes; MetadataIndex.Length (taken from it) would not be the length of the record")
+	default:
+		r.held("C05.w", funcName(fn), "returned byte count", p.pos(fn.Pos()), "sum of the counts of all writes")
+	}
+}
